@@ -11,11 +11,13 @@ EOF where a line should start) raises `ProtocolError` and closes; decoder errors
 `DecodeError`; an unfinished zstd frame fails `flush`; `_error_catcher` closes and releases the
 connection on every unclean exit.
 
-`C13_truncated_raises` at full strength ("for every call sequence") is **false** of the code as it
-is; the `…_silent` theorems are kernel-evaluated counter-examples (read1() on a short
-Content-Length body; read(n) on a truncated zstd stream; MultiDecoder.flush).
+The `read1()` defect (a short Content-Length body ended silently) is repaired in the code:
+`C13_eof_before_length_raises` is the general statement, `C13_read1_none_raises` the former negation
+witness turned positive.  `C13_truncated_raises` at full strength ("for every call sequence") is
+still **false** of the code as it is for truncated zstd streams; the `…_silent` theorems are
+kernel-evaluated counter-examples (read(n) on a truncated zstd stream; MultiDecoder.flush).
 
-  -- full statement (refuted by C13_read1_none_silent):
+  -- full statement (refuted by C13_zstd_incomplete_read_n_silent):
   -- theorem C13_truncated_raises (ht : ¬ lenientComplete w) : ∀ calls, endSignalled (runCalls d w calls) → False
 -/
 namespace U3.Props
@@ -100,18 +102,67 @@ theorem C13_error_closes_connection {δ α : Type} (r : R H δ) (e : RawExc) (hc
     res.2.conn = false ∧ res.2.fp.isclosed = true ∧ res.2.fp.closed = true := by
   simp [errorCatcher, releaseConn, hSrc, H.close, H.isclosed, hconn]
 
-/-! ### negation witnesses -/
+/-- **the repaired `read1()` defect, in general**: whenever `_raw_read` — through `read(n)`,
+`read1(n)` or `read1()` (no amount) — sees the end of the stream (`http.client` returns b"") while
+`length_remaining` says that body bytes are still owed, it raises (IncompleteRead →) ProtocolError,
+closes the response and the connection and hands the connection back closed.  (`read()` without
+amount is `C13_truncated_raises_content_length`: `http.client` raises there itself.)
+Before the repair the `read1()` case returned b"" — a normal end. -/
+theorem C13_eof_before_length_raises {δ : Type} (cfg : Cfg δ) (r : R H δ) (amt : Option Nat) (rd1 : Bool) (h' : H)
+    (hcl : r.fp.closed = false)
+    (hread : (if rd1 then hRead1 r.fp amt else hRead r.fp amt) = (.ok [], h'))
+    (hamt : amt ≠ some 0) (hapi : rd1 = true ∨ amt ≠ none)
+    (henf : cfg.enforce = true) (hlr : r.lengthRemaining ≠ none ∧ r.lengthRemaining ≠ some 0)
+    (hconn : r.conn = true) :
+    let res := rawRead hSrc cfg r amt rd1
+    res.1 = .error .protocolError ∧ res.2.connClosed = true ∧ res.2.released = true ∧
+    res.2.conn = false ∧ res.2.fp.isclosed = true := by
+  intro res
+  have hres : res = rawRead hSrc cfg r amt rd1 := rfl
+  rw [hres]
+  unfold rawRead
+  have hread' : (if hSrc.closed r.fp = true then ((Except.ok [] : Except HErr Bytes), r.fp)
+      else if rd1 = true then hSrc.read1 r.fp amt else hSrc.read r.fp amt) = (.ok [], h') := by
+    simp only [hSrc, hcl, Bool.false_eq_true, if_false]; exact hread
+  simp only [hread']
+  by_cases ha : amt = none
+  · -- `read1()` without an amount: the repaired branch
+    have hr1 : rd1 = true := by
+      rcases hapi with h | h
+      · exact h
+      · exact absurd ha h
+    subst ha hr1
+    simp [errorCatcher, mapExc, releaseConn, hSrc, H.close, H.isclosed, henf, hlr.1, hlr.2, hconn]
+  · have hc : amt ≠ none ∧ amt ≠ some 0 ∧ ([] : Bytes).isEmpty = true := ⟨ha, hamt, rfl⟩
+    simp [hc, errorCatcher, mapExc, releaseConn, hSrc, H.close, H.isclosed, henf, hlr.1, hlr.2, hconn]
 
-/-- `Content-Length: 5`, only "ab" arrives: `read1()` returns "ab", then b"" — a normal end —
-while `read()` on the same response raises ProtocolError -/
-theorem C13_read1_none_silent :
+/-- the hypotheses of `C13_eof_before_length_raises` are met by the concrete short body of the
+former negation witness: after "ab" has been read, `http.client.read1()` returns b"" with
+`length_remaining = 3` -/
+example :
+    let r0 := respOf wireShortCL 0 (some (lit "5")) false (some 5)
+    let s1 := read1 hSrc cdDec cfgNone r0 none (some false)
+    s1.2.fp.closed = false ∧ (hRead1 s1.2.fp none).1.toOption = some [] ∧ s1.2.lengthRemaining = some 3 ∧
+    s1.2.conn = true := by
+  decide +kernel
+
+/-! ### the repaired defect on the concrete input that used to be its negation witness -/
+
+/-- `Content-Length: 5`, only "ab" arrives: `read1()` returns "ab", the next `read1()` raises
+ProtocolError (IncompleteRead), closes the connection and hands it back closed — exactly as
+`read()` does on the same response (before the repair the second `read1()` returned b"" and released
+the still-open connection: findings `silent-end:read1():cl-short`,
+`conn-released-open-after-silent-read1()`) -/
+theorem C13_read1_none_raises :
     let r0 := respOf wireShortCL 0 (some (lit "5")) false (some 5)
     let s1 := read1 hSrc cdDec cfgNone r0 none (some false)
     let s2 := read1 hSrc cdDec cfgNone s1.2 none (some false)
-    out s1 = some (lit "ab") ∧ out s2 = some [] ∧ s2.2.lengthRemaining = some 3 ∧
-    s2.2.released = true ∧ s2.2.connClosed = false ∧
+    out s1 = some (lit "ab") ∧ err s2 = some .protocolError ∧ s2.2.lengthRemaining = some 3 ∧
+    s2.2.released = true ∧ s2.2.connClosed = true ∧ s2.2.fp.isclosed = true ∧
     err (read hSrc cdDec cfgNone r0 none (some false)) = some .protocolError := by
   decide +kernel
+
+/-! ### negation witnesses (known findings that are not repaired) -/
 
 /-- close-delimited zstd frame of "hello" cut two bytes short: `read(64)` returns "hel", then b"";
 `read()` raises DecodeError ("Zstandard data is incomplete") -/
